@@ -21,6 +21,13 @@
   as multisets). The zone side is C06's theorem (`Rel.reachable`, `lookup_eq_spec`), no longer a
   hypothesis.
 
+  Recorded correction: the first version of `C05_full` quantified over *arbitrary* writer states;
+  that statement was too strong (a writer already in the additional section answers `OutOfOrder`
+  to the first `add_answer_rrset` without any `Truncation`, and the response is then SERVFAIL
+  whatever the zone says). `C05_full` now quantifies over the states in which `handle_query` is
+  entered (`QueryReady`), and `C05_entry_state_handle_message` shows that the state
+  `handle_message_with_context` hands over is one.
+
   The selection of the zone (longest suffix match in the catalog, `handle_query`) is C22 + C07; the
   lifting from the operation log to the decoded octets is C12 (the writer serialises what it was
   given); both are checked end to end on every run by the `audans` oracle, which decodes the real
@@ -28,6 +35,7 @@
 -/
 import QV.Proofs.ServerAnswer
 import QV.Proofs.ServerAnswerCap
+import QV.Proofs.ServerAnswerEntry
 import QV.Proofs.WriterFaithful
 
 namespace QV.C05
@@ -368,5 +376,42 @@ example : QueryReady w0 ⟨[[120], lz]⟩ := by
     rw [hw, ← hq]
   · rw [hn] at hq; cases hq
   · rw [hn] at hq; cases hq
+
+/-! ### the composition: what `handle_message` hands to `handle_query` is `QueryReady`
+
+  `QV.ServerScan.scanAndDispatch_answer` (the scan's refinement theorem, C08/C09) shows that a
+  request that reaches a loaded zone (no TSIG record) runs `handle_query` on the explicit writer
+  state `arSt (qSt (hdrSt (ServerScan.w0 bufLen (lim0 tr)) id opcode rd) (some q)) tr payload e l`:
+  `Writer::new(buf, 512 | 65 535)`, `set_id`, `set_qr`, `set_opcode`, `set_rd`, `add_question`, and —
+  when the scan met an OPT record — `set_edns(payload)` and over UDP `set_limit(l)` with
+  `512 ≤ l ≤ max 512 payload` (`specTail_props`). -/
+
+open QV.ServerScan in
+/-- that state satisfies `QueryReady` (server payload size a 16-bit value ≥ 512, as the API enforces) -/
+theorem C05_entry_state_handle_message (bufLen : Nat) (tr : Transport) (payload id opcode : Nat) (rd : Bool)
+    (hbuf : minBuf tr payload ≤ bufLen) (hpay : 512 ≤ payload) (hpay16 : payload ≤ 65535)
+    (q : Spec.DQuestion) (qn : WName) (hp : WName.parse q.qname = some (qn, [])) (hw : qn.wire = q.qname)
+    (hl : q.qname.length ≤ 255) (hqwf : qn.WF) (e : Bool) (l : Nat) (hl1 : 512 ≤ l) (hl2 : l ≤ max 512 payload) :
+    QueryReady (arSt (qSt (hdrSt (ServerScan.w0 bufLen (lim0 tr)) id opcode rd) (some q)) tr payload e l) qn :=
+  queryReady_scan_state bufLen tr payload id opcode rd hbuf hpay hpay16 q qn hp hw hl hqwf e l hl1 hl2
+
+open QV.ServerScan in
+/-- **C05 on the state the scan hands over**: no hypothesis on the writer is left -/
+theorem C05_after_scan
+    (eqv : Eqv) (apex : NameL.Name) (cls : Nat) (glue : GluePolicy) (rs : List Rec) (qtype : Nat) (tr : Transport)
+    (bufLen payload id opcode : Nat) (rd : Bool)
+    (hbuf : minBuf tr payload ≤ bufLen) (hpay : 512 ≤ payload) (hpay16 : payload ≤ 65535)
+    (q : Spec.DQuestion) (qn : WName) (hp : WName.parse q.qname = some (qn, [])) (hw : qn.wire = q.qname)
+    (hl : q.qname.length ≤ 255) (hqwf : qn.WF) (e : Bool) (l : Nat) (hl1 : 512 ≤ l) (hl2 : l ≤ max 512 payload)
+    (ha : Folded apex) (hawf : (unfold apex).WF) (hq : apex <:+ fold qn)
+    (hnt : NoTruncation (handleNonAxfrQueryL (build eqv (Zone.new apex cls glue) rs) qn qtype tr
+      ⟨arSt (qSt (hdrSt (ServerScan.w0 bufLen (lim0 tr)) id opcode rd) (some q)) tr payload e l, []⟩).2.log) :
+    (handleNonAxfrQueryL (build eqv (Zone.new apex cls glue) rs) qn qtype tr
+      ⟨arSt (qSt (hdrSt (ServerScan.w0 bufLen (lim0 tr)) id opcode rd) (some q)) tr payload e l, []⟩).1 = .ok () ∧
+    view (handleNonAxfrQueryL (build eqv (Zone.new apex cls glue) rs) qn qtype tr
+      ⟨arSt (qSt (hdrSt (ServerScan.w0 bufLen (lim0 tr)) id opcode rd) (some q)) tr payload e l, []⟩).2.log
+      = View.ofResolution (specResolve (specBuild eqv ⟨apex, cls, glue, []⟩ rs) (fold qn) qtype) :=
+  C05 eqv apex cls glue rs qn qtype tr _ ha hawf hqwf hq
+    (C05_entry_state_handle_message bufLen tr payload id opcode rd hbuf hpay hpay16 q qn hp hw hl hqwf e l hl1 hl2) hnt
 
 end QV.C05
